@@ -8,7 +8,7 @@ def run(res):
         res, "c09", n,
         prop_files=["theories/Properties/C09.v"],
         model_files=["theories/Server/Inst.v"],
-        theorem_note="Properties/C09.v: C09_status_table (+ rows), C09_op_without_id, C09_params_accepted_only_if, C09_other_sessions_untouched, C09_footprint_removed; C09_tree_accepts_unknown_mode_refuted",
+        theorem_note="Properties/C09.v: C09_status_table (+ rows), C09_regenerated_checkParams(_nil) + C09_do_params_is_checkParams + C09_consistency_scan (checkParams regenerated from server.go on this run = the decision of do_params), C09_regenerated_dispatch + C09_dispatch_is_step (the switch of the receive loop = the model's message classes), C09_regenerated_deleteClient, C09_op_without_id, C09_params_accepted_only_if, C09_other_sessions_untouched, C09_footprint_removed; C09_tree_accepts_unknown_mode_refuted",
         trusted=STB,
         assumptions=["per-message atomicity", "a session that has connected but not yet negotiated counts as a live session with default parameters (the code's behaviour; the property's 'only if identical' direction holds)",
                      "model-free oracle: protocol violations must leave RIB/held/counters/election state identical, accepted parameters must be SINGLE_PRIMARY+PRESERVE, multi-field / zero-id / wrong-mode messages end the RPC with the specified code and reason"])
